@@ -265,6 +265,9 @@ func Run(r *vh.Run) {
 			}
 		}
 	}
+	for i := 0; i < r.Pick(2, 8); i++ {
+		parallelFormations(r, i)
+	}
 	r.Extra("attempts", attempts)
 	r.Assume("signatures are ideal; consensus validity is whatever the real chain manager and pool decide")
 	r.Assume("the renter broadcasts (adds to its pool) the set a successful call returns; reservations are observed through SpendableOutputs against the wallet store and both pools")
